@@ -677,18 +677,17 @@ def block_plan(ctx):
             n = dt.date(y, 12, 31).toordinal() - o + 1
             blocks.append(("block", 365, o, n))
     else:
-        starts = [1, 1580, 1690, 1890, 1990, 2010, 2090, 2390, 9980] + [rng.randint(1, 9970) for _ in range(3)]
+        starts = [1, 1595, 1895, 1995, 2015, 2095, 9989] + [rng.randint(1, 9980) for _ in range(2)]
         for f in REG:
             for y0 in starts:
-                blocks.append(("block", f, y0 * f, 20 * f))
-        dstarts = [1, MAXORD - 399, dt.date(1899, 9, 1).toordinal(), dt.date(1999, 12, 1).toordinal(),
-                   dt.date(2023, 12, 1).toordinal(), dt.date(2099, 12, 1).toordinal(), dt.date(399, 12, 1).toordinal()] + \
-                  [rng.randint(1, MAXORD - 400) for _ in range(3)]
+                blocks.append(("block", f, y0 * f, 10 * f))
+        dstarts = [1, MAXORD - 149, dt.date(1899, 12, 1).toordinal(), dt.date(1999, 12, 1).toordinal(),
+                   dt.date(2024, 2, 1).toordinal()] + [rng.randint(1, MAXORD - 400) for _ in range(2)]
         for o in dstarts:
-            blocks.append(("block", 365, o, 300))
-        for o in [1, MAXORD - 7999, dt.date(1899, 1, 1).toordinal(), dt.date(1999, 1, 1).toordinal()] + \
-                 [rng.randint(1, MAXORD - 8000) for _ in range(2)]:
-            blocks.append(("ords", o, 8000))
+            blocks.append(("block", 365, o, 150))
+        for o in [1, MAXORD - 4999, dt.date(1899, 1, 1).toordinal(), dt.date(1999, 1, 1).toordinal(),
+                  rng.randint(1, MAXORD - 5000)]:
+            blocks.append(("ords", o, 5000))
     return blocks
 
 
@@ -729,7 +728,7 @@ def explain(ctx, terms: list[str]) -> list[str]:
     return bodies if len(bodies) == len(terms) else [out[-300:]] * len(terms)
 
 
-def finish_cases(ctx, res: CorrResult, items, per_small=600, per_big=4):
+def finish_cases(ctx, res: CorrResult, items, per_small=800, per_big=4):
     """items: (where, case, model term, impl obs).  Runs the shards and records disagreements."""
     small = [it for it in items if not it[0].startswith("digest")]
     big = [it for it in items if it[0].startswith("digest")]
@@ -766,8 +765,8 @@ def correspondence(ctx) -> CorrResult:
     res = CorrResult()
     items = []          # (where, case, coq model term, impl obs)
     dist = {"period_ops": {}, "errors": {}, "span_actions": {}, "span_kinds": {}, "blocks": {}, "frequencies": {}}
-    n_p = ctx.scale(2000, 120000)
-    n_h = ctx.scale(500, 40000)
+    n_p = ctx.scale(1500, 100000)
+    n_h = ctx.scale(400, 30000)
     n_e = ctx.scale(100, 3000)
     nontrivial = set()
     for _ in range(n_p):
@@ -833,5 +832,229 @@ def correspondence(ctx) -> CorrResult:
     res.samples = [{"case": it[1], "model_call": it[2][:300], "impl": str(it[3])[:300]} for it in
                    (items[0], items[min(n_p, len(items) - 1)], items[-1])]
     res.notes.append(f"{covered} periods/ordinals covered by digests in {len(blocks)} blocks")
-    finish_cases(ctx, res, items, per_big=6 if ctx.thorough else 3)
+    finish_cases(ctx, res, items, per_big=6 if ctx.thorough else 5)
     return res
+
+
+# ------------------------------------------------------------------ falsifier: the property on the public API
+
+def py_spec(s) -> str:
+    k = s[0]
+    if k == "reg":
+        nm = {1: "yy", 2: "hh", 4: "qq", 12: "mm"}[s[1]]
+        return f"ir.{nm}({s[2]})" if s[1] == 1 and s[3] == 1 else f"ir.{nm}({s[2]}, {s[3]})"
+    if k == "day":
+        return f"ir.dd({s[1]}, {s[2]}, {s[3]})"
+    if k == "doy":
+        return f"ir.dd({s[1]}, None, {s[2]})"
+    return f"ir.ii({s[1]})"
+
+
+PRELUDE = "import irispie as ir, datetime as dt, types\n"
+
+
+class Checker:
+    """Runs Python snippets that state one instance of the property with `assert`; a snippet that raises is a failure."""
+
+    def __init__(self):
+        self.fails: list[Failure] = []
+        self.keys = set()
+        self.count = {}
+
+    def check(self, key: str, what: str, inp, snippet: str, required=None):
+        self.count[key.split(":")[0]] = self.count.get(key.split(":")[0], 0) + 1
+        r = run_snippet(snippet)
+        if r is not None and key not in self.keys:
+            self.keys.add(key)
+            self.fails.append(Failure(key, what, inp, r, required, PRELUDE + snippet))
+
+    def note(self, key, what, inp, observed, required, snippet):
+        if key not in self.keys:
+            self.keys.add(key)
+            self.fails.append(Failure(key, what, inp, observed, required, PRELUDE + snippet))
+
+
+def run_snippet(snippet: str):
+    """None when every assertion holds, else a description of what happened"""
+    import irispie as ir
+    env = {"ir": ir, "dt": dt, "types": types}
+    try:
+        exec(snippet, env)
+        return None
+    except AssertionError as e:
+        return f"assertion failed: {e}" if str(e) else "assertion failed"
+    except Exception as e:  # noqa
+        return f"{type(e).__name__}: {e}"[:300]
+
+
+def expected_listing(a: int, e: int, c: int) -> list[int]:
+    """start, start+step, ... up to end (serials), written without range()"""
+    out, x = [], a
+    while (c > 0 and x <= e) or (c < 0 and x >= e):
+        out.append(x)
+        x += c
+    return out
+
+
+def falsify(ctx, hints):
+    import irispie as ir
+    rng = ctx.rng
+    ck = Checker()
+    n = ctx.scale(250, 6000)
+    SEGM = {1: 12, 2: 6, 4: 3, 12: 1}
+    for it in range(n):
+        f = rng.choice(FREQS)
+        s = rand_spec(rng, freq=f, lo=2, hi=9998, sloppy=0)
+        P = py_spec(s)
+        k = rand_offset(rng) if f == 0 else rng.randint(-300, 300)
+        q = shifted_spec(rng, s, rng.randint(-40, 40))
+        Q = py_spec(q)
+        pre = f"p = {P}; q = {Q}; n = {k}\n"
+        # 1. integers: arithmetic, order, hashing
+        ck.check("arith:add_sub", "p + (q - p) != q", {"p": P, "q": Q}, pre + "assert p + (q - p) == q")
+        ck.check("arith:sub_add", "(p + n) - p != n", {"p": P, "n": k}, pre + "assert (p + n) - p == n and (p - n) + n == p")
+        ck.check("arith:assoc", "(p + n) + 1 != p + (n + 1)", {"p": P, "n": k}, pre + "assert (p + n) + 1 == p + (n + 1) and n + p == p + n")
+        ck.check("order:cmp", "comparison operators disagree with the sign of p - q", {"p": P, "q": Q},
+                 pre + "d = p - q\nassert (p == q) == (d == 0) and (p != q) == (d != 0) and (p < q) == (d < 0) "
+                       "and (p <= q) == (d <= 0) and (p > q) == (d > 0) and (p >= q) == (d >= 0)")
+        ck.check("hash:eq", "equal periods hash differently", {"p": P, "n": k},
+                 pre + "r = (p + n) - n\nassert r == p and hash(r) == hash(p) and len({p, r}) == 1")
+        # 2. mixing frequencies is rejected
+        g = rng.choice([x for x in FREQS if x != f])
+        O = py_spec(rand_spec(rng, freq=g, lo=2, hi=9998, sloppy=0))
+        for op in ("p - o", "p == o", "p != o", "p < o", "p <= o", "p > o", "p >= o", "ir.Span(p, o)",
+                   "ir.periods_from_until(p, o)", "p == None"):
+            snippet = (f"p = {P}; o = {O}\ntry:\n    r = {op}\nexcept Exception as e:\n    r = e\n"
+                       f"assert isinstance(r, Exception), 'returned ' + repr(r)")
+            ck.check(f"mixed:{op}", f"`{op}` across frequencies is not rejected", {"p": P, "o": O}, snippet)
+        if f == 0:
+            continue
+        # 3-5. calendar consistency
+        if f in REG:
+            m = SEGM[f]
+            ck.check(f"tiling:{f}", "consecutive periods leave a gap or overlap / start <= middle <= end fails", {"p": P},
+                     pre + "one = dt.timedelta(days=1)\n"
+                           "a, b, c = (p.to_python_date(position=x) for x in ('start', 'middle', 'end'))\n"
+                           "assert a <= b <= c and c + one == (p + 1).to_python_date(position='start') "
+                           "and (p - 1).to_python_date(position='end') + one == a")
+            ck.check(f"accessor:{f}", "year/segment disagree with the calendar dates", {"p": P},
+                     pre + "a = p.to_python_date(position='start'); c = p.to_python_date(position='end')\n"
+                           f"assert p.year == a.year == c.year and p.segment == (a.month - 1) // {m} + 1 == (c.month - 1) // {m} + 1\n"
+                           "assert p.to_year_segment() == (p.year, p.segment) and a.day == 1 and (c + dt.timedelta(days=1)).day == 1\n"
+                           f"assert ir.Period.from_year_segment(ir.Frequency({f}), p.year, p.segment) == p")
+            ck.check(f"shift:kw:{f}", "a keyword shift lands on the wrong period", {"p": P},
+                     pre + f"f = {f}\nassert p.shift('yoy') == p - f and p.shift('yoy').segment == p.segment and p.shift('yoy').year == p.year - 1\n"
+                           "s = p.shift('soy'); assert s.year == p.year and s.segment == 1 and s == p.shift('boy') and s <= p\n"
+                           "e = p.shift('eopy'); assert e.year == p.year - 1 and e.segment == f and e + 1 == s\n"
+                           "t = p.shift('tty'); assert (t is None and p.segment == 1) or (p.segment > 1 and t == p - 1)\n"
+                           "assert p.shift(n) == p + n and p.shift() == p - 1")
+        else:
+            ck.check("tiling:365", "consecutive days are not consecutive dates", {"p": P},
+                     pre + "one = dt.timedelta(days=1)\n"
+                           "a, b, c = (p.to_python_date(position=x) for x in ('start', 'middle', 'end'))\n"
+                           "assert a == b == c and c + one == (p + 1).to_python_date() and a.toordinal() == p.serial")
+            ck.check("accessor:365", "year/segment of a daily period disagree with the calendar date", {"p": P},
+                     pre + "a = p.to_python_date()\nassert p.year == a.year and p.to_ymd() == (a.year, a.month, a.day)\n"
+                           "assert p.segment == a.timetuple().tm_yday and p.to_year_segment() == (a.year, a.timetuple().tm_yday)\n"
+                           "assert ir.dd(p.year, None, p.segment) == p")
+            ck.check("shift:kw:365", "a keyword shift of a daily period lands on the wrong day", {"p": P},
+                     pre + "a = p.to_python_date()\nassert p.shift('yoy') == p - 365\n"
+                           "s = p.shift('soy'); assert s.to_python_date() == dt.date(a.year, 1, 1) and s == p.shift('boy')\n"
+                           "e = p.shift('eopy'); assert e.to_python_date() == dt.date(a.year - 1, 12, 31) and e + 1 == s\n"
+                           "t = p.shift('tty'); assert (t is None and p == s) or (p > s and t == p - 1)")
+    # 6. spans
+    for it in range(ctx.scale(250, 6000)):
+        f = rng.choice(FREQS)
+        s = rand_spec(rng, freq=f, lo=1800, hi=2200, sloppy=0)
+        c = rng.choice([1, 1, -1, 2, 3, -2, -3, 5, -7])
+        dist = rng.randint(0, 30) * (1 if c > 0 else -1)
+        if rng.random() < 0.1:
+            dist = -dist
+        e = shifted_spec(rng, s, dist)
+        P, E = py_spec(s), py_spec(e)
+        pre = f"p = {P}; e = {E}; c = {c}\nsp = ir.Span(p, e, c)\n"
+        want = expected_listing(0, dist, c)       # offsets from p
+        W = repr(want)
+        ck.check("span:list", "list(span) is not start, start+step, ... up to end", {"start": P, "end": E, "step": c},
+                 pre + f"want = [p + k for k in {W}]\nassert list(sp) == want, list(sp)\n"
+                       "assert all((t - p) % c == 0 and min(p, e) <= t <= max(p, e) for t in sp)")
+        ck.check("span:len_index", "len / indexing / slicing disagree with iteration", {"start": P, "end": E, "step": c},
+                 pre + "l = list(sp)\nassert len(sp) == len(l)\n"
+                       "assert all(sp[i] == l[i] and sp[i - len(l)] == l[i] for i in range(len(l)))\n"
+                       "assert list(sp[:]) == l and list(sp[1:]) == l[1:] and list(sp[:2]) == l[:2]\n"
+                       "try:\n    sp[len(l)]; ok = False\nexcept IndexError:\n    ok = True\nassert ok")
+        ck.check("span:reverse", "reversal does not enumerate end, end-step, ... down to start / is not an involution",
+                 {"start": P, "end": E, "step": c},
+                 pre + f"r = sp.reversed()\nwant = [e + k for k in {expected_listing(0, -dist, -c)!r}]\n"
+                       "assert list(r) == want and r.start == e and r.end == p and r.step == -c\n"
+                       "assert r.reversed() == sp and list(r.reversed()) == list(sp)\n"
+                       "if (e - p) % c == 0: assert list(r) == list(sp)[::-1]")
+        k = rng.randint(-9, 9)
+        ck.check("span:shift", "shifting a span does not shift its periods", {"start": P, "end": E, "step": c, "by": k},
+                 pre + f"k = {k}\nl = list(sp)\nt = sp + k\nassert list(t) == [x + k for x in l] and len(t) == len(l)\n"
+                       "sp.shift(k); assert list(sp) == [x + k for x in l] and sp == t\n"
+                       "u = sp - k; assert list(u) == l")
+        # in-place histories against a pure recomputation on offsets
+        ops, a0, e0, c0 = [], 0, dist, c
+        for _ in range(rng.randint(1, 7)):
+            t = rng.choice(["reverse", "shift", "shift_start", "shift_end"])
+            kk = rng.randint(-6, 6)
+            if t == "reverse":
+                ops.append("sp.reverse()"); a0, e0, c0 = e0, a0, -c0
+            elif t == "shift":
+                ops.append(f"sp.shift({kk})"); a0 += kk; e0 += kk
+            elif t == "shift_start":
+                ops.append(f"sp.shift_start({kk})"); a0 += kk
+            else:
+                ops.append(f"sp.shift_end({kk})"); e0 += kk
+        ck.check("span:history", "a sequence of in-place mutations leaves the span in the wrong state",
+                 {"start": P, "end": E, "step": c, "ops": ops},
+                 pre + "\n".join(ops) + f"\nassert sp.start == p + {a0} and sp.end == p + {e0} and sp.step == {c0}\n"
+                                       f"assert list(sp) == [p + k for k in {expected_listing(a0, e0, c0)!r}]")
+        # open-ended spans resolved against a context
+        o1, o2 = rng.randint(-3, 3), rng.randint(-3, 3)
+        fwd = c > 0
+        lo_, hi_ = (0, abs(dist)) if fwd else (abs(dist), 0)
+        ck.check("span:resolve", "an open-ended span does not resolve to the context's dates", {"start": P, "end": E, "step": c},
+                 f"p = {P}; e = p + {abs(dist)}; c = {c}\n"
+                 f"cx = types.SimpleNamespace(start_date=p, end_date=e)\n"
+                 f"a = ir.Span(None, None, c); assert a.needs_resolve and not a\n"
+                 f"r = a.resolve(cx); assert list(r) == list(ir.Span({'p, e' if fwd else 'e, p'}, c))\n"
+                 f"b = ir.Span(ir.start + {o1}, ir.end + {o2}, {abs(c)}).resolve(cx)\n"
+                 f"assert b.start == p + {o1} and b.end == e + {o2} and not b.needs_resolve\n"
+                 f"h = ir.Span(None, e, {abs(c)}); h.shift(2); h.reverse(); g = h.resolve(cx)\n"
+                 f"h2 = ir.Span(None, e, {abs(c)}).resolve(cx); h2.shift(2); h2.reverse(); assert g == h2 and list(g) == list(h2)")
+    # exhaustive calendar sweep (thorough tier: every regular period of years 2..9998, every 7th day)
+    if ctx.thorough:
+        one = dt.timedelta(days=1)
+        for f in REG:
+            cons = {1: ir.yy, 2: ir.hh, 4: ir.qq, 12: ir.mm}[f]
+            p = cons(2, 1)
+            last = cons(9998, f)
+            prev_end = (p - 1).to_python_date(position="end")
+            while p <= last:
+                a, b, c_ = (p.to_python_date(position=x) for x in POS)
+                ok = prev_end + one == a and a <= b <= c_ and p.year == a.year == c_.year \
+                    and p.segment == (a.month - 1) // SEGM[f] + 1
+                if not ok:
+                    ck.note(f"tiling:{f}", "exhaustive sweep: tiling/accessors fail", {"p": repr(p)},
+                            [str(prev_end), str(a), str(b), str(c_), p.year, p.segment], None,
+                            f"p = ir.{repr(p)}; print(p.to_python_date(position='start'), (p - 1).to_python_date(position='end'))")
+                    break
+                prev_end = c_
+                p = p + 1
+            ck.count[f"sweep:{f}"] = (9997 * f)
+    seen = {}
+    for f_ in ck.fails:
+        seen.setdefault(f_.key, f_)
+    return list(seen.values()), {"checks": ck.count}
+
+
+def replay(ctx, failure: dict):
+    snippet = failure.get("repro") or ""
+    if not snippet:
+        return None
+    r = run_snippet(snippet)
+    if r is None:
+        return None
+    return Failure(failure["key"], failure["what"], failure["input"], r, failure.get("required"), snippet)
